@@ -274,6 +274,7 @@ Inductive action :=
   | APanic                               (* a custom command that panics *)
   | AKill                                (* kill: every background command gets a signal *)
   | AKillWait                            (* kill, then wait: the statuses are checked as by skip *)
+  | AWait                                (* wait: no signal is sent; blocks on a command that is still running *)
   | AIfExec (neg : bool) (prog : name) (a : action).  (* [exec:prog] a   /   [!exec:prog] a *)
 
 Record script := {
@@ -301,7 +302,8 @@ Inductive phase :=
   | NotStarted
   | Running (pc : nat)
   | Ending (v : verdict) (st : stage)
-  | Done (v : verdict).
+  | Done (v : verdict)
+  | Stuck.   (* blocked for ever in `wait` on a background command that nothing has signalled *)
 
 Inductive event :=
   | EvSetup (e : env) (t : tree) (outside : list path)  (* outside: files unpacked outside $WORK *)
@@ -388,7 +390,7 @@ Definition cached_look (cfg : config) (s : nat) (c : cache) (ss : sstate) (prog 
   | None => let v := look cfg s (tr ss) pv prog in (v, (k, v) :: c)
   end.
 
-Inductive outcome := OCont | OFail | OSkip | OStop | OPanic.
+Inductive outcome := OCont | OFail | OSkip | OStop | OPanic | OStuck.
 
 Definition add_obs (ss : sstate) (l : list event) : sstate :=
   {| ph := ph ss; cwd := cwd ss; senv := senv ss; tr := tr ss; wpresent := wpresent ss;
@@ -428,6 +430,29 @@ Fixpoint skip_wait (b : list (nat * bool)) : list event * bool :=
   | (h, neg) :: r =>
       if neg then let '(evs, ok) := skip_wait r in (EvWaited h :: evs, ok)
       else ([EvWaited h], false)
+  end.
+
+(* Background commands are of two kinds, told apart by their handle: handles below 100 are commands
+   that run until they are signalled (and then have failed); handles from 100 on are commands that
+   exit at once by themselves with a failure status (exec helper exit 1 &). *)
+Definition quick_fail (h : nat) : bool := Nat.leb 100 h.
+
+Definition bg_interrupted_ev (l : list event) : list nat :=
+  flat_map (fun e => match e with EvInt h => [h] | _ => [] end) l.
+Definition signalled (l : list event) (h : nat) : bool := existsb (Nat.eqb h) (bg_interrupted_ev l).
+
+Inductive wait_result := WOk | WFailed | WStuck.
+
+(* the bare `wait`: waitBackground(true) waits for each command in turn and checks its status; a
+   command that has neither exited by itself nor been signalled is waited for for ever *)
+Fixpoint wait_list (sig : nat -> bool) (b : list (nat * bool)) : list event * wait_result :=
+  match b with
+  | [] => ([], WOk)
+  | (h, neg) :: r =>
+      if quick_fail h || sig h
+      then if neg then let '(evs, res) := wait_list sig r in (EvWaited h :: evs, res)
+           else ([EvWaited h], WFailed)
+      else ([], WStuck)
   end.
 
 (* one script line.  The cache is the only shared thing a line can read or write. *)
@@ -483,6 +508,14 @@ Fixpoint exec_action (cfg : config) (s : nat) (c : cache) (ss : sstate) (a : act
       let '(waited, ok) := skip_wait (bgl ss) in
       let ss1 := add_obs ss (ev_int_all (bgl ss) ++ waited) in
       if ok then (c, set_bgl ss1 [], OCont) else (c, ss1, OFail)
+  | AWait =>
+      let '(waited, res) := wait_list (signalled (obs ss)) (bgl ss) in
+      let ss1 := add_obs ss waited in
+      match res with
+      | WOk => (c, set_bgl ss1 [], OCont)
+      | WFailed => (c, ss1, OFail)
+      | WStuck => (c, ss1, OStuck)
+      end
   | AIfExec neg prog a' =>
       let '(ans, c') := cached_look cfg s c ss prog in
       let ss1 := add_obs ss [EvCond prog ans] in
@@ -572,6 +605,7 @@ Definition sstep (cfg : config) (p : script) (s : nat) (c : cache) (ss : sstate)
                    (* break; the background commands are dealt with; then FailNow if a line had failed *)
                    set_ph ss' (Ending (if failedf ss' then VFail else VStop) SInt)
                | OPanic => set_ph ss' (Ending VPanic SDefers)
+               | OStuck => set_ph ss' Stuck
                end, NoEffect)
       end
   | Ending v SInt => (c, set_ph (add_obs ss (ev_int_all (bgl ss))) (Ending v SWait), NoEffect)
@@ -590,6 +624,7 @@ Definition sstep (cfg : config) (p : script) (s : nat) (c : cache) (ss : sstate)
                wpresent := match t with [] => false | _ => true end;
                dstack := dstack ss; bgl := bgl ss; failedf := failedf ss; obs := obs ss ++ [EvWorkRemoved] |}, Finished)
   | Done _ => (c, ss, NoEffect)
+  | Stuck => (c, ss, NoEffect)
   end.
 
 (* ------------------------------------------------------------------ the batch *)
@@ -677,6 +712,13 @@ Definition bg_started (l : list event) : list nat :=
   flat_map (fun e => match e with EvBgStart h => [h] | _ => [] end) l.
 Definition bg_interrupted (l : list event) : list nat :=
   flat_map (fun e => match e with EvInt h => [h] | _ => [] end) l.
+(* the commands that are no longer running: interrupted, or of the kind that exits by itself *)
+Definition bg_gone (l : list event) : list nat :=
+  flat_map (fun e => match e with
+                     | EvInt h => [h]
+                     | EvBgStart h => if quick_fail h then [h] else []
+                     | _ => []
+                     end) l.
 Definition bg_waited (l : list event) : list nat :=
   flat_map (fun e => match e with EvWaited h => [h] | _ => [] end) l.
 
@@ -684,3 +726,8 @@ Definition bg_waited (l : list event) : list nat :=
 Definition uses_cond (a : action) : bool :=
   match a with AIfExec _ _ _ => true | _ => false end.
 Definition script_uses_cond (p : script) : bool := existsb uses_cond (body p).
+
+(* does a line execute a bare `wait`? *)
+Fixpoint has_wait (a : action) : bool :=
+  match a with AWait => true | AIfExec _ _ a' => has_wait a' | _ => false end.
+Definition script_has_wait (p : script) : bool := existsb has_wait (body p).
